@@ -78,6 +78,7 @@ fn avro_err(e: &arrow_avro::errors::AvroError) -> i64 {
         A::IoError(_, _) => 10,
         A::NeedMoreData(_) => 11,
         A::NeedMoreDataRange(_) => 12,
+        _ => 13,
     }
 }
 fn parquet_err(e: &parquet::errors::ParquetError) -> i64 {
@@ -772,7 +773,7 @@ fn ipc_batch(sid: usize, r: &mut Rng, rows: usize) -> RecordBatch {
         _ => {
             let b: BooleanArray = (0..rows).map(|_| Some(r.bool())).collect();
             let f: Float64Array = (0..rows).map(|_| Some(r.range(-100, 100) as f64 / 8.0)).collect();
-            let bin: BinaryArray = (0..rows).map(|_| if r.chance(1, 4) { None } else { Some(r.bytes(r.below(5))) }).collect::<Vec<Option<Vec<u8>>>>().iter().map(|x| x.as_deref()).collect();
+            let bin: BinaryArray = (0..rows).map(|_| if r.chance(1, 4) { None } else { Some({ let k = r.below(5); r.bytes(k) }) }).collect::<Vec<Option<Vec<u8>>>>().iter().map(|x| x.as_deref()).collect();
             let ts: TimestampMillisecondArray = (0..rows).map(|_| Some(r.range(0, 1 << 40))).collect();
             RecordBatch::try_from_iter_with_nullable(vec![("b", Arc::new(b) as ArrayRef, true), ("f", Arc::new(f) as ArrayRef, true), ("bin", Arc::new(bin) as ArrayRef, true), ("ts", Arc::new(ts) as ArrayRef, true)]).unwrap()
         }
@@ -789,7 +790,8 @@ fn ipc_stream(r: &mut Rng, with_eos: bool) -> (Vec<u8>, String) {
     let mut opts = if legacy { IpcWriteOptions::try_new(8, true, MetadataVersion::V4).unwrap() } else { IpcWriteOptions::try_new(align, false, MetadataVersion::V5).unwrap() };
     let comp = if !legacy && r.chance(1, 6) { if r.bool() { Some(arrow_ipc::CompressionType::LZ4_FRAME) } else { Some(arrow_ipc::CompressionType::ZSTD) } } else { None };
     if comp.is_some() { opts = opts.try_with_compression(comp).unwrap(); }
-    let first = ipc_batch(sid, r, r.below(5));
+    let first_rows = r.below(5);
+    let first = ipc_batch(sid, r, first_rows);
     let mut buf = Vec::new();
     {
         let mut w = StreamWriter::try_new_with_options(&mut buf, &first.schema(), opts).unwrap();
@@ -879,7 +881,7 @@ fn gen_ipc_model(tier: &str, r: &mut Rng, emit: &mut dyn FnMut(Case), count: usi
         let kind = r.below(6);
         match kind {
             0 => { let k = r.below(bytes.len() + 1); bytes.truncate(k); }
-            1 => bytes.extend(r.bytes(1 + r.below(6))),
+            1 => bytes.extend({ let k = 1 + r.below(6); r.bytes(k) }),
             2 => { let (b2, _) = ipc_stream(r, true); if with_eos && r.bool() { bytes.truncate(bytes.len() - 8); } bytes.extend(b2); }
             3 => { // drop the schema message: the first batch arrives without a schema
                 let f = walk_ipc(&bytes);
@@ -919,7 +921,7 @@ fn ocf_long_file(r: &mut Rng) -> (Vec<u8>, String) {
     let mut entries: Vec<(Vec<u8>, Vec<u8>)> = vec![(b"avro.schema".to_vec(), AVRO_A.as_bytes().to_vec())];
     if r.bool() { entries.push((b"avro.codec".to_vec(), b"null".to_vec())); }
     if r.chance(1, 3) { entries.push((b"".to_vec(), b"".to_vec())); }
-    if r.chance(1, 3) { entries.push((b"k".to_vec(), r.bytes(r.below(20)))); }
+    if r.chance(1, 3) { entries.push((b"k".to_vec(), { let k = r.below(20); r.bytes(k) })); }
     if r.bool() { entries.reverse(); }
     let mut i = 0;
     while i < entries.len() {
@@ -984,7 +986,7 @@ fn gen_ipc(tier: &str, r: &mut Rng, emit: &mut dyn FnMut(Case), count: usize) {
         match kind {
             0 | 1 | 2 => {}
             3 => { let k = r.below(bytes.len() + 1); bytes.truncate(k); pull = false; }
-            4 => { bytes.extend(r.bytes(1 + r.below(6))); pull = false; }
+            4 => { bytes.extend({ let k = 1 + r.below(6); r.bytes(k) }); pull = false; }
             5 => { let (b2, _) = ipc_stream(r, true); if r.bool() { bytes.truncate(bytes.len().saturating_sub(if with_eos { 8 } else { 0 })); } bytes.extend(b2); pull = false; }
             6 => { // corrupt a size prefix / continuation marker / body byte (never flatbuffer metadata)
                 let frames = walk_ipc(&bytes);
@@ -1113,7 +1115,7 @@ fn json_value(r: &mut Rng, ty: &DataType, depth: usize) -> String {
     if r.chance(1, 8) { return "null".to_string(); }
     match ty {
         DataType::Int64 | DataType::Int32 => json_number(r, false),
-        DataType::Float64 => json_number(r, r.chance(2, 3)),
+        DataType::Float64 => { let fl = r.chance(2, 3); json_number(r, fl) }
         DataType::Boolean => (if r.bool() { "true" } else { "false" }).to_string(),
         DataType::Utf8 => json_string(r),
         DataType::List(f) => { let k = r.below(4); let items: Vec<String> = (0..k).map(|_| format!("{}{}{}", ws(r), json_value(r, f.data_type(), depth + 1), ws(r))).collect(); format!("[{}{}]", items.join(","), ws(r)) }
@@ -1178,7 +1180,8 @@ fn gen_json(tier: &str, r: &mut Rng, emit: &mut dyn FnMut(Case), count: usize) {
         for (bit, den) in [(JS_STRICT, 8), (JS_COERCE, 8), (JS_FLATTEN, 5), (JS_IGNORE, 8)] { if r.chance(1, den) { cfg |= bit; } }
         let (bytes, tag) = json_doc(r, cfg);
         let bs = *r.pick(&[1usize, 1, 2, 3, 4, 5, 1024]);
-        let v = *r.pick(&[0i64, 2, 16 + r.below(1000) as i64]);
+        let vv = 16 + r.below(1000) as i64;
+        let v = *r.pick(&[0i64, 2, vv]);
         put_all(emit, r, tier, F_JSON, cfg, bs, &[v, V_PULL], &bytes, &format!("{tag} bs{bs}"), true);
     }
 }
@@ -1262,7 +1265,8 @@ fn parquet_file(r: &mut Rng) -> (Vec<u8>, String) {
     let sid = *r.pick(&[0usize, 1, 6]);
     let stats = *r.pick(&[EnabledStatistics::None, EnabledStatistics::Chunk, EnabledStatistics::Page, EnabledStatistics::Page]);
     let props = WriterProperties::builder().set_max_row_group_row_count(Some(1 + r.below(4))).set_statistics_enabled(stats).set_data_page_row_count_limit(2).set_write_batch_size(2).build();
-    let first = ipc_batch(sid, r, 1 + r.below(6));
+    let first_rows = 1 + r.below(6);
+    let first = ipc_batch(sid, r, first_rows);
     let mut buf = Vec::new();
     let mut w = ArrowWriter::try_new(&mut buf, first.schema(), Some(props)).unwrap();
     w.write(&first).unwrap();
